@@ -14,7 +14,8 @@ databases have them (C12.j).
 Added in round 5: directory strategy only where level directories exist (C12.k); per-cache flags
 stay local (C12.l); numbered directories compare as numbers (C12.m); task time before cache option
 (C12.n, shared C13.j); an empty selection selects nothing (C12.o); one directory per grid (C12.p,
-shared C02.j)."""
+shared C02.j).
+Added in round 6: saved progress is only taken up with --continue (C12.q)."""
 import ast
 import re
 
